@@ -169,3 +169,12 @@ Proof. exact (conj xx_input_ok (conj (proj1 xx_noise_is_there) (conj (proj1 (pro
 
 Print Assumptions C07_no_trace_input_level.
 Print Assumptions C07_rejected_by_the_rules_is_rejected_by_the_code.
+(* the hypotheses of C07_rejected_by_the_rules_is_rejected_by_the_code hold at genesis for a first event that
+   claims frame 2; the model's answer by evaluation *)
+From LV Require Import proofs.LinkCodesExample.
+Example C07_rejection_example :
+  (LinkStep.Sim 1 (fun _ => 0) ex2_vals (fun _ => False) 48 (start 1 ex2_vals) [] [] [] /\ BftMain.few_forkers ex2_vals [] /\
+   BftGraph.parents_known [] rj_e /\ nlookup (eid (fe rj_e)) [] = None /\ (ecr (fe rj_e) < length ex2_vals)%nat /\ BftGraph.ev_wf [] rj_e /\
+   r_frame_ok ex2_vals [] (mk_node (length ex2_vals) [] rj_e) = false /\ id_fresh 48 (eid (fe rj_e))) /\
+  fst (fst (step 3 [] sample (start 1 ex2_vals) (OpP (to_aevent 1 (fun _ => 0) ex2_vals rj_e)))) = ObsP (Some EWrongFrame) [] 0 1.
+Proof. exact (conj rj_hyps rj_rejected). Qed.
